@@ -51,6 +51,8 @@ type Script struct {
 	parseOnce sync.Once
 	parsed    []*sx
 	Structs   map[string][]string
+	// loop-carried variables that are case-split: SMT constant name -> split variable
+	SplitConsts map[string]string
 }
 
 func (s *Script) emit(format string, a ...interface{}) {
@@ -116,26 +118,30 @@ type fctx struct {
 	inLoop    map[*ssa.BasicBlock][]*ssa.BasicBlock // header -> blocks of natural loop
 
 	// results
-	rets         []retInfo
-	inline       bool
-	obPrefix     string
-	counter      *int
-	callOrd      int
-	paramTerms   map[string]Term
-	ideal        bool
-	emitSeq      string               // state key of ghost emitted sequence (emit idiom)
-	binds        map[ssa.Value]*Place // closure free-variable bindings
-	parent       *fctx
-	validTerm    *Term
-	rootCon      *Contract
-	ghosts       map[string]Term
-	entryState   *State
-	entryReach   Term
-	unrolled     map[*ssa.BasicBlock]bool
-	unrolling    map[*ssa.BasicBlock]bool
-	exitOverride map[[2]int]Term
-	pow2Vals     map[string]bool // real terms known to be exact powers of two
-	constLen     map[string]int  // sequence terms of statically known length
+	rets          []retInfo
+	inline        bool
+	obPrefix      string
+	counter       *int
+	callOrd       int
+	paramTerms    map[string]Term
+	ideal         bool
+	emitSeq       string               // state key of ghost emitted sequence (emit idiom)
+	binds         map[ssa.Value]*Place // closure free-variable bindings
+	parent        *fctx
+	validTerm     *Term
+	rootCon       *Contract
+	ghosts        map[string]Term
+	pendingSplits []string
+	entryState    *State
+	entryReach    Term
+	unrolled      map[*ssa.BasicBlock]bool
+	unrolling     map[*ssa.BasicBlock]bool
+	exitOverride  map[[2]int]Term
+	edgeOv        map[[2]int]*edgeOverride
+	digits4       map[string]Term // string terms that are the base-4 digits of an integer
+	ndigits       *Term
+	pow2Vals      map[string]bool // real terms known to be exact powers of two
+	constLen      map[string]int  // sequence terms of statically known length
 }
 
 type retInfo struct {
@@ -441,8 +447,9 @@ func (vc *VC) TranslateFunction(fn *ssa.Function, con *Contract) (sc *Script, er
 	// requires
 	env := f.contractEnv(con, fn, args, nil, f.cur, f.entry)
 	for _, sp := range con.Splits {
-		if _, ok := f.paramTerms[sp.Var]; !ok {
-			return nil, fmt.Errorf("contract error: split variable %s is not a parameter", sp.Var)
+		if _, ok := f.paramTerms[sp.Var]; !ok && !strings.HasPrefix(sp.Var, "loop:") {
+			// may be a loop-carried variable; checked after translation
+			f.pendingSplits = append(f.pendingSplits, sp.Var)
 		}
 	}
 	for n, t := range f.ghosts {
@@ -491,6 +498,17 @@ func (vc *VC) TranslateFunction(fn *ssa.Function, con *Contract) (sc *Script, er
 	if len(f.rets) == 0 {
 		return nil, fmt.Errorf("outside-subset: function has no return")
 	}
+	for _, v := range f.pendingSplits {
+		found := false
+		for _, sv := range sc.SplitConsts {
+			if sv == v {
+				found = true
+			}
+		}
+		if !found {
+			return nil, fmt.Errorf("contract error: split variable %s is neither a parameter, a ghost nor a loop variable", v)
+		}
+	}
 	return sc, nil
 }
 
@@ -507,7 +525,7 @@ func (vc *VC) newFctx(fn *ssa.Function, con *Contract, sc *Script, pfx string, c
 		clos: map[ssa.Value]*ssa.MakeClosure{}, ranges: map[ssa.Value]*rangeInfo{},
 		reach: map[*ssa.BasicBlock]Term{}, exit: map[*ssa.BasicBlock]*State{}, loopOrd: map[*ssa.BasicBlock]int{}, backEdges: map[[2]int]bool{},
 		inLoop: map[*ssa.BasicBlock][]*ssa.BasicBlock{}, paramTerms: map[string]Term{}, binds: map[ssa.Value]*Place{},
-		pow2Vals: map[string]bool{}, constLen: map[string]int{}, unrolled: map[*ssa.BasicBlock]bool{}, unrolling: map[*ssa.BasicBlock]bool{}, exitOverride: map[[2]int]Term{}}
+		pow2Vals: map[string]bool{}, constLen: map[string]int{}, unrolled: map[*ssa.BasicBlock]bool{}, unrolling: map[*ssa.BasicBlock]bool{}, exitOverride: map[[2]int]Term{}, edgeOv: map[[2]int]*edgeOverride{}, digits4: map[string]Term{}}
 }
 
 func (f *fctx) bindParams(args []Term) {
@@ -787,6 +805,11 @@ func (f *fctx) walk(order []*ssa.BasicBlock, skipHeader *ssa.BasicBlock) {
 					continue // unreachable predecessor
 				}
 				preds = append(preds, p)
+				if ov, ok := f.edgeOv[[2]int{p.Index, b.Index}]; ok {
+					states = append(states, ov.state)
+					conds = append(conds, ov.cond)
+					continue
+				}
 				states = append(states, f.exit[p])
 				conds = append(conds, f.edgeCond(p, b))
 			}
@@ -828,6 +851,12 @@ func (f *fctx) finishBlock(b *ssa.BasicBlock) {
 	}
 }
 
+type edgeOverride struct {
+	cond  Term
+	state *State
+	phis  map[*ssa.Phi]Term
+}
+
 // unrollLoop unrolls a loop completely: n body executions, then an unwinding
 // assertion that the loop condition is false.  Only loops that leave through
 // their header (or by return) are supported.
@@ -837,28 +866,41 @@ func (f *fctx) unrollLoop(h *ssa.BasicBlock, ord int, n int) {
 	for _, b := range body {
 		inBody[b] = true
 	}
+	// exits from the body (break): recorded per iteration and merged afterwards
+	type bodyExit struct{ from, to *ssa.BasicBlock }
+	var bodyExits []bodyExit
+	retOnly := func(s *ssa.BasicBlock) bool {
+		_, isRet := s.Instrs[len(s.Instrs)-1].(*ssa.Return)
+		return isRet && len(s.Preds) == 1
+	}
 	for _, b := range body {
 		if b == h {
 			continue
 		}
 		for _, s := range b.Succs {
-			if !inBody[s] {
-				if _, isRet := s.Instrs[len(s.Instrs)-1].(*ssa.Return); !(isRet && len(s.Preds) == 1) {
-					f.fail("unrolled loop %d leaves through its body (break)", ord)
-				}
+			if !inBody[s] && !retOnly(s) {
+				bodyExits = append(bodyExits, bodyExit{b, s})
 			}
 		}
 	}
+	type edgeSnap struct {
+		cond  Term
+		state *State
+		phis  map[*ssa.Phi]Term
+	}
+	bodySnaps := map[bodyExit][]edgeSnap{}
 	var bodyOrder []*ssa.BasicBlock
 	for _, b := range f.rpo() {
 		if inBody[b] && b != h {
 			bodyOrder = append(bodyOrder, b)
 		} else if !inBody[b] {
 			// return-only blocks hanging off the body are processed with it
-			for _, p := range b.Preds {
-				if inBody[p] && p != h {
-					bodyOrder = append(bodyOrder, b)
-					break
+			if retOnly(b) {
+				for _, p := range b.Preds {
+					if inBody[p] && p != h {
+						bodyOrder = append(bodyOrder, b)
+						break
+					}
 				}
 			}
 		}
@@ -910,6 +952,7 @@ func (f *fctx) unrollLoop(h *ssa.BasicBlock, ord int, n int) {
 			delete(f.unrolled, b)
 			for _, sb := range b.Succs {
 				delete(f.exitOverride, [2]int{b.Index, sb.Index})
+				delete(f.edgeOv, [2]int{b.Index, sb.Index})
 			}
 		}
 		for _, b := range bodyOrder {
@@ -942,6 +985,22 @@ func (f *fctx) unrollLoop(h *ssa.BasicBlock, ord int, n int) {
 		for _, b := range bodyOrder {
 			delete(f.reach, b)
 		}
+		// invariants of an unrolled loop are per-iteration cut lemmas: proved, then assumed
+		if invs := f.con.invariants(ord); len(invs) > 0 {
+			env := f.loopEnv(h, nil, f.cur)
+			for ci, c := range invs {
+				t, err := ToSMT(c.Expr, env)
+				if err != nil {
+					panic(specErr{fmt.Sprintf("%s:%d: %v", c.File, c.Line, err)})
+				}
+				tag := c.Tag
+				if tag == "" {
+					tag = fmt.Sprint(ci)
+				}
+				f.oblige("I1", fmt.Sprintf("I/loop%d.inv%s@iter%d", ord, tag, k), wantBoolE(t), h.Instrs[0].Pos(), c.Text)
+				f.assume(t)
+			}
+		}
 		f.finishBlock(h)
 		// exits from the header
 		for _, sblk := range h.Succs {
@@ -971,6 +1030,24 @@ func (f *fctx) unrollLoop(h *ssa.BasicBlock, ord int, n int) {
 			break
 		}
 		f.walk(bodyOrder, h)
+		for _, be := range bodyExits {
+			if _, done := f.reach[be.from]; !done {
+				continue
+			}
+			sn := edgeSnap{cond: f.edgeCond(be.from, be.to), state: f.exit[be.from], phis: map[*ssa.Phi]Term{}}
+			for _, ins := range be.to.Instrs {
+				phi, ok := ins.(*ssa.Phi)
+				if !ok {
+					break
+				}
+				for j, pp := range be.to.Preds {
+					if pp == be.from {
+						sn.phis[phi] = f.val(phi.Edges[j])
+					}
+				}
+			}
+			bodySnaps[be] = append(bodySnaps[be], sn)
+		}
 		// back edges into the header form the incoming edges of the next iteration
 		inc = nil
 		for _, p := range h.Preds {
@@ -1048,6 +1125,30 @@ func (f *fctx) unrollLoop(h *ssa.BasicBlock, ord int, n int) {
 	} else {
 		delete(f.reach, h)
 	}
+	// merged break edges
+	for be, snaps := range bodySnaps {
+		var conds []Term
+		var states []*State
+		for _, sn := range snaps {
+			conds = append(conds, sn.cond)
+			states = append(states, sn.state)
+		}
+		ov := &edgeOverride{cond: f.define("break_u", Or(conds...)), state: f.mergeStates(states, conds), phis: map[*ssa.Phi]Term{}}
+		for phi := range snaps[0].phis {
+			t := snaps[len(snaps)-1].phis[phi]
+			for i := len(snaps) - 2; i >= 0; i-- {
+				t = Ite(snaps[i].cond, snaps[i].phis[phi], t)
+			}
+			ov.phis[phi] = f.define(phi.Name()+"_brk", t)
+		}
+		f.edgeOv[[2]int{be.from.Index, be.to.Index}] = ov
+		f.reach[be.from] = ov.cond
+	}
+	for _, be := range bodyExits {
+		if _, ok := bodySnaps[be]; !ok {
+			delete(f.reach, be.from)
+		}
+	}
 	// values defined in the body are iteration-local
 	for _, b := range body {
 		f.unrolled[b] = true
@@ -1075,6 +1176,12 @@ func (f *fctx) phi(phi *ssa.Phi, preds []*ssa.BasicBlock, conds []Term) {
 	for i, p := range preds {
 		_ = i
 		// find edge index
+		if ov, ok := f.edgeOv[[2]int{p.Index, phi.Block().Index}]; ok {
+			if t, ok := ov.phis[phi]; ok {
+				vals = append(vals, t)
+				continue
+			}
+		}
 		for j, pp := range phi.Block().Preds {
 			if pp == p {
 				vals = append(vals, f.val(phi.Edges[j]))
@@ -1091,6 +1198,14 @@ func (f *fctx) phi(phi *ssa.Phi, preds []*ssa.BasicBlock, conds []Term) {
 	}
 	t.Ty = phi.Type()
 	f.vals[phi] = f.define(phi.Name(), t)
+}
+
+func (f *fctx) rootFctx() *fctx {
+	r := f
+	for r.parent != nil {
+		r = r.parent
+	}
+	return r
 }
 
 // loopHeader havocs the loop-carried values and assumes the invariant.
@@ -1113,6 +1228,16 @@ func (f *fctx) loopHeader(h *ssa.BasicBlock, ord int, preds []*ssa.BasicBlock, c
 		t := f.declare(phi.Name()+"_"+strings.TrimPrefix(phi.Comment, "#"), s)
 		t.Ty = phi.Type()
 		f.vals[phi] = t
+		if root := f.rootFctx(); root.rootCon != nil && s.Kind == KInt {
+			for _, sp := range root.rootCon.Splits {
+				if (sp.Var == phi.Comment && phi.Comment != "") || (sp.Var == "$idx" && phi.Comment == "rangeindex") {
+					if f.sc.SplitConsts == nil {
+						f.sc.SplitConsts = map[string]string{}
+					}
+					f.sc.SplitConsts[t.S] = sp.Var
+				}
+			}
+		}
 		f.assumeTypeInvariant(t, phi.Type(), false)
 	}
 	// havoc modified state
@@ -1416,6 +1541,9 @@ func (f *fctx) loopEnv(h *ssa.BasicBlock, from *ssa.BasicBlock, st *State) *Env 
 		if t, ok := st.cells[f.emitSeq]; ok {
 			vars["$emitted"] = t
 		}
+	}
+	if f.ndigits != nil {
+		vars["$ndigits"] = *f.ndigits
 	}
 	// captured / address-taken local variables by name
 	for k, t := range st.cells {
